@@ -277,6 +277,8 @@ def run(tier):
         "scripts": len(cat),
         "scripts_deterministic": len(det_scripts),
         "scripts_dfs_exhausted_within_depth": dfs_exh,
+        "scripts_with_all_schedules_enumerated": sum(1 for s in per_script.values() if s.get("all_schedules")),
+        "max_choice_points_of_a_run": max([s.get("max_choice_points", 0) for s in per_script.values()] or [0]),
         "dfs_depth": t["depth"],
         "random_schedules_per_script": t["random"],
         "run_outcomes": outcomes,
